@@ -156,34 +156,57 @@ fn c11_starts_ends_with() {
     assert!(x.ends_with(y) == a.units().ends_with(b.units()));
 }
 
-// BOUND: haystack at most 3 code units, needle at most 2, fromIndex at most 4
-// FN: JsStr::index_of
-#[kani::proof]
-#[kani::unwind(9)]
-fn c11x_index_of() {
+fn index_of_model(a: &Seq, b: &Seq, from: usize) -> Option<usize> {
+    // the abstract operation StringIndexOf
+    if b.n == 0 {
+        return if from <= a.n { Some(from) } else { None };
+    }
+    let mut w = None;
+    let mut i = 0;
+    while i + b.n <= a.n {
+        if w.is_none() && i >= from && &a.u[i..i + b.n] == b.units() {
+            w = Some(i);
+        }
+        i += 1;
+    }
+    w
+}
+
+fn index_of_case(needle_len: usize) {
     let (a, b) = (any_seq(), any_seq());
-    kani::assume(b.n <= 2);
+    kani::assume(b.n == needle_len);
     let (na, nb) = (a.narrow(), b.narrow());
     let (x, y) = (repr(&a, &na), repr(&b, &nb));
     let from: usize = kani::any();
     kani::assume(from <= 4);
-    kani::cover!(x.is_latin1() != y.is_latin1() && b.n == 2 && a.n == 3 && x.index_of(y, 0) == Some(1));
-    kani::cover!(x.index_of(y, from).is_none() && b.n > 0);
-    // model of the abstract operation StringIndexOf
-    let want = if b.n == 0 {
-        if from <= a.n { Some(from) } else { None }
-    } else {
-        let mut w = None;
-        let mut i = 0;
-        while i + b.n <= a.n {
-            if w.is_none() && i >= from && &a.u[i..i + b.n] == b.units() {
-                w = Some(i);
-            }
-            i += 1;
-        }
-        w
-    };
-    assert!(x.index_of(y, from) == want);
+    let r = x.index_of(y, from); // called once: the windows/skip/position iterator chain is expensive for CBMC
+    kani::cover!(x.is_latin1() != y.is_latin1() && a.n == 3 && r.is_some());
+    kani::cover!(r.is_none());
+    assert!(r == index_of_model(&a, &b, from));
+}
+
+// BOUND: haystack at most 3 code units, needle exactly 1 unit, fromIndex at most 4
+// FN: JsStr::index_of
+#[kani::proof]
+#[kani::unwind(9)]
+fn c11x_index_of_needle1() {
+    index_of_case(1);
+}
+
+// BOUND: haystack at most 3 code units, needle exactly 2 units, fromIndex at most 4
+// FN: JsStr::index_of
+#[kani::proof]
+#[kani::unwind(9)]
+fn c11x_index_of_needle2() {
+    index_of_case(2);
+}
+
+// BOUND: haystack at most 3 code units, empty needle, fromIndex at most 4
+// FN: JsStr::index_of
+#[kani::proof]
+#[kani::unwind(9)]
+fn c11x_index_of_empty_needle() {
+    index_of_case(0);
 }
 
 // BOUND: at most 3 code units
@@ -295,6 +318,70 @@ fn c11_code_point_methods() {
     assert!(enc == c.encode_utf16(&mut want));
     let mut buf2 = [0u16; 2];
     assert!(l.encode_utf16(&mut buf2) == [s]);
+}
+
+
+// ---------------------------------------------------------------- thorough tier: the same contracts at length <= 4
+
+pub(crate) struct Seq4 {
+    pub(crate) u: [u16; 4],
+    pub(crate) n: usize,
+}
+fn any_seq4() -> Seq4 {
+    let s = Seq4 { u: kani::any(), n: kani::any() };
+    kani::assume(s.n <= 4);
+    s
+}
+impl Seq4 {
+    fn units(&self) -> &[u16] {
+        &self.u[..self.n]
+    }
+    fn narrow(&self) -> [u8; 4] {
+        [self.u[0] as u8, self.u[1] as u8, self.u[2] as u8, self.u[3] as u8]
+    }
+}
+fn repr4<'a>(s: &'a Seq4, narrow: &'a [u8; 4]) -> JsStr<'a> {
+    if kani::any() {
+        kani::assume(s.units().iter().all(|c| *c <= 0xFF));
+        JsStr::latin1(&narrow[..s.n])
+    } else {
+        JsStr::utf16(s.units())
+    }
+}
+
+// BOUND: both operands at most 4 code units (all 2^16 values per unit, all representation pairs)
+// FN: <JsStr as PartialEq>::eq, <JsStr as Ord>::cmp
+#[kani::proof]
+#[kani::unwind(11)]
+fn c11x_eq_and_order_len4() {
+    let (a, b) = (any_seq4(), any_seq4());
+    let (na, nb) = (a.narrow(), b.narrow());
+    let (x, y) = (repr4(&a, &na), repr4(&b, &nb));
+    kani::cover!(x.is_latin1() && !y.is_latin1() && a.n == 4 && a.units() == b.units());
+    kani::cover!(a.n == 4 && b.n == 3);
+    assert!((x == y) == (a.units() == b.units()));
+    assert!(x.cmp(&y) == a.units().cmp(b.units()));
+}
+
+// BOUND: at most 4 code units
+// FN: <JsStr as Hash>::hash, JsStr::len, JsStr::get, JsStr::to_vec
+#[kani::proof]
+#[kani::unwind(11)]
+fn c11x_hash_len_get_len4() {
+    let a = any_seq4();
+    kani::assume(a.units().iter().all(|c| *c <= 0xFF));
+    let na = a.narrow();
+    kani::cover!(a.n == 4);
+    let (x, y) = (JsStr::latin1(&na[..a.n]), JsStr::utf16(a.units()));
+    let mut hx = Rec { log: [(0, 0); 8], k: 0 };
+    let mut hy = Rec { log: [(0, 0); 8], k: 0 };
+    x.hash(&mut hx);
+    y.hash(&mut hy);
+    assert!(hx.k == hy.k && hx.k == a.n + 1 && hx.log == hy.log);
+    assert!(x.len() == a.n && y.len() == a.n);
+    let i: usize = kani::any();
+    assert!(x.get(i) == a.units().get(i).copied() && y.get(i) == x.get(i));
+    assert!(x.to_vec() == y.to_vec());
 }
 
 #[kani::proof]
